@@ -62,6 +62,7 @@ type c04In struct {
 	FileSkip int    `json:"file_skip,omitempty"`    // the upload is a seekable reader handed over after this many bytes were already read
 	Wire     string `json:"wire,omitempty"`     // "" = request serialised and re-parsed in process; "tcp" = a real loopback HTTP server and the default transport
 	RespPad  int    `json:"resp_pad,omitempty"` // the response body is followed by this many padding bytes (large bodies are streamed by a real transport)
+	Echo     int    `json:"echo,omitempty"`     // kind mp: the same upload is made once before, and what went over the wire then (the whole multipart body, delimiter lines included) is this call's file (1) or form field (2)
 	RespCT   string `json:"resp_ct,omitempty"`  // the handler's responder sets this Content-Type itself (a type the operation does not list) and writes the body raw
 	BSeq     []c04BStep `json:"bseq,omitempty"` // kind bseq: calls on ONE server of an operation with an optional body and one with an optional file, sent or left out
 	AuthQ    bool   `json:"auth_q,omitempty"`   // the credential is an API key in the QUERY, under the name of the form field f1 (the form field must still arrive as set)
@@ -111,6 +112,7 @@ type c04StepObs struct {
 type c04Obs struct {
 	SeqObs []c04StepObs `json:"seq_obs,omitempty"`
 	ParObs []c04Obs     `json:"par_obs,omitempty"`
+	EchoVal  Bs         `json:"echo_val,omitempty"`  // kind mp with echo: the value derived from the earlier call's wire bytes
 	WireHead Bs         `json:"wire_head,omitempty"` // kind hdr: the serialised request head
 	MpDoc      Bs       `json:"mp_doc,omitempty"`      // kind mp: the request body as the server got it (only when at most 20 kB); kind mpread: the document read
 	MpBoundary Bs       `json:"mp_boundary,omitempty"` // kind mp: the boundary parameter of the Content-Type the server got
@@ -230,6 +232,9 @@ func (c04) Gen(r *rand.Rand, tier string, i int) any {
 		if r.Intn(4) == 0 && len(in.File) > 0 {
 			in.FileSkip = 1 + r.Intn(len(in.File))
 		}
+		if r.Intn(4) == 0 {
+			in.Echo, in.FileSkip = 1+r.Intn(2), 0
+		}
 		return in
 	}
 	if i%20 == 5 { // the model reader against the real multipart.Reader on documents with delimiter look-alikes and damage
@@ -297,6 +302,9 @@ func (c04) Gen(r *rand.Rand, tier string, i int) any {
 	in.Stream = r.Intn(3)
 	if r.Intn(4) == 0 {
 		in.Wire = "tcp"
+		if r.Intn(3) == 0 {
+			in.Wire = "h2"
+		}
 		in.RespPad = []int{0, 1500, 5000, 70000, 300000}[r.Intn(5)]
 	}
 	if in.Method != "GET" {
@@ -892,6 +900,21 @@ func (c04) Run(inAny any) any {
 		wg.Wait()
 		return obs
 	}
+	if in.Kind == "mp" && in.Echo > 0 {
+		first := in
+		first.Echo = 0
+		o1 := c04RunOne(first)
+		val := Bs("dump of an earlier request:\r\n") + o1.MpDoc
+		second := first
+		if in.Echo == 1 {
+			second.File, second.FileSkip = val, 0
+		} else {
+			second.F1 = val
+		}
+		o2 := c04RunOne(second)
+		o2.EchoVal = val
+		return o2
+	}
 	return c04RunOne(in)
 }
 
@@ -1011,6 +1034,12 @@ func c04RunOne(in c04In) c04Obs {
 			srv := httptest.NewServer(h)
 			defer srv.Close()
 			rt = client.New(srv.Listener.Addr().String(), in.BasePath, []string{"http"})
+		} else if in.Wire == "h2" { // HTTP/2 over TLS on the loopback: streamed bodies arrive without a length and without a transfer coding
+			srv := httptest.NewUnstartedServer(h)
+			srv.EnableHTTP2 = true
+			srv.StartTLS()
+			defer srv.Close()
+			rt = client.NewWithClient(srv.Listener.Addr().String(), in.BasePath, []string{"https"}, srv.Client())
 		} else {
 			rt.Transport = c04Transport{h: h, target: &obs.Target}
 			if in.Kind == "hdr" {
@@ -1221,6 +1250,26 @@ func (c04) Coq(inAny any, obsAny any) string {
 		return fmt.Sprintf("CHdrWire %s %s %s %s %s %s %s", coqBytes(c04HName(in)), coqBytes(string(in.H)), coqBytes(string(line)), coqBytes(string(next)),
 			coqBool(obs.Panicked || obs.SubmitErr != ""), coqBool(obs.Ran), coqBytes(string(recv)))
 	}
+	if in.Kind == "mp" && in.Echo > 0 {
+		// whatever an earlier request looked like on the wire is just data for this one: it must arrive whole (a boundary
+		// drawn afresh for every request cannot occur in data that existed before)
+		sup := map[string][]Bs{"f1": {in.F1}, "up": {in.File}}
+		if in.Echo == 1 {
+			sup["up"] = []Bs{obs.EchoVal}
+		} else {
+			sup["f1"] = []Bs{obs.EchoVal}
+		}
+		rec := map[string][]Bs{"f1": {""}, "up": {""}}
+		for _, k := range []string{"f1", "up"} {
+			if v := obs.Recv[k]; len(v) == 1 {
+				rec[k] = v
+			}
+		}
+		if len(sup["f1"][0]) == 0 {
+			sup["f1"] = []Bs{""}
+		}
+		return fmt.Sprintf("CRoundSeq %s [(%s, %s, %s, %s)]", coqBool(obs.Panicked), coqBool(obs.SubmitErr != ""), coqBool(obs.Ran), c04Assoc(sup), c04Assoc(rec))
+	}
 	if in.Kind == "mp" {
 		one := func(k string) Bs { // an absent value is the empty byte string
 			if v := obs.Recv[k]; len(v) == 1 {
@@ -1356,6 +1405,9 @@ func (c04) Category(inAny any, obsAny any) (string, bool) {
 		}
 		return "header-wire/" + cls, true
 	}
+	if in.Kind == "mp" && in.Echo > 0 {
+		return []string{"", "multipart-echo/earlier-request-body-as-file", "multipart-echo/earlier-request-body-as-field"}[in.Echo], true
+	}
 	if in.Kind == "mp" {
 		cls := func(v string) string {
 			switch {
@@ -1427,6 +1479,9 @@ func (c04) Category(inAny any, obsAny any) (string, bool) {
 	w := "inproc"
 	if in.Wire == "tcp" {
 		w = fmt.Sprintf("tcp-pad%d", in.RespPad)
+	}
+	if in.Wire == "h2" {
+		w = fmt.Sprintf("http2-tls-pad%d", in.RespPad)
 	}
 	return fmt.Sprintf("%s/%s/%s/%s/%s", in.Method, in.Body, in.Produces, a, w), nt
 }
